@@ -140,7 +140,10 @@ def showSend : Option SendOut → String
     let q := if s.tcpTried then (if s.tcpQueries.isEmpty then "none" else "/".intercalate s.tcpQueries) else "-"
     let u := match s.udp with
       | none => "-"
-      | some u => s!"{u.why},{b2s u.cancel4},{b2s u.cancel6},{u.used}"
+      | some u =>
+        let w := match u.why with
+          | .timeout => "timeout" | .parseError => "parse-error" | .truncated => "truncated" | .done => "done"
+        s!"{w},{b2s u.cancel4},{b2s u.cancel6},{u.used}"
     s!"q={q} udp={u}"
 
 def showOut (o : LookupOut) : String :=
